@@ -58,6 +58,12 @@ var Layouts = []Layout{
 	L("job.resume", 21, true, c(3), m32(), c(1)),
 	L("job.kill", 21, true, c(4), m32(), c(1)),
 	L("fs.dir", 15, true, c(1), b(0), b(0), F{K: "w", T: "C:\\start\\*"}, b(1), mw(), c(1), c(0), k64(1234), mw(), b(0), k64(77), c(1), c(2), c(2024), c(30), c(12)),
+	// dir /s: one block per directory ([path][files][dirs][size] + its entries), here three
+	// directories with 1, 2 and 1 entries
+	L("fs.dir.recursive", 15, true, c(1), b(0), b(0), F{K: "w", T: "C:\\start\\*"}, b(1),
+		mw(), c(1), c(0), k64(1234), mw(), b(0), k64(77), c(1), c(2), c(2024), c(30), c(12),
+		mw(), c(1), c(1), k64(99), mw(), b(1), k64(0), c(3), c(4), c(2023), c(5), c(6), mw(), b(0), k64(4242), c(7), c(8), c(2022), c(9), c(10),
+		mw(), c(1), c(0), k64(5), mw(), b(0), k64(5), c(11), c(12), c(2021), c(13), c(14)),
 	L("fs.upload", 15, true, c(3), m32(), mw()),
 	L("fs.cd", 15, true, c(4), mw()),
 	L("fs.remove", 15, true, c(5), c(0), mw()),
